@@ -12,9 +12,11 @@
 //   - `if` without a return inside: `let x := if c then .. else x in` for the assigned variable (a tuple of them when there
 //     are several) instead of a duplicated continuation; struct values are tuples of their fields.
 //
-// Three kinds of definition: a whole function; the value of one local variable when control reaches the end of the
-// function (backward slice over the top-level statements; locals named as inputs are parameters); the body of the
-// function's only top-level loop as a state transformer.
+// Three kinds of definition: a whole function; a value the function uses, found by the part it plays (the operand of the
+// n-th strconv.FormatInt, an argument of the n-th object.NewPoint, .. - see `anchor`), else by the name of a local variable:
+// backward slice over the top-level statements before the use; locals that are inputs are parameters, found by role as
+// well; the body of the function's only top-level loop as a state transformer.
+// A definition that cannot be produced is left out and reported (translator.try); the others are written.
 package main
 
 import (
@@ -32,43 +34,261 @@ import (
 	"strings"
 )
 
-type cut struct{ name, typ string }
+// a local variable that is a parameter of an extracted value: found by its role in the function, else by its name
+type cut struct {
+	name, typ string
+	role      cutRole
+}
 
 type ftarget struct {
 	pkg      string
 	recv     string
 	name     string
 	out      string // Coq name (default: Name, Recv_Name, Name_local)
-	local    string // the value of this local variable at the end of the function
-	inputs   []cut  // with local: local variables that are parameters of the definition (their value at the end of the function)
+	local    string // extracted value: the output name is <func>_<local>; also the name looked for when the role is not found
+	role     anchor // extracted value: where the function uses the value (the operand of a call ...); nil: by name only
+	weak     bool   // the role is a weak one: look for the name first, for the role only if no statement assigns that name
+	inputs   []cut  // with local: local variables that are parameters of the definition
 	loopBody bool   // the body of the only top-level for loop, as a function of the variables declared before it
 }
+
+// An anchor says which expression of the function body an extracted value is, by the part it plays: (index of the top-level statement
+// that uses it, the expression, a description). The value is that of the expression just before that statement (index = number of
+// statements: when control reaches the end of the function).
+type anchor struct {
+	doc  string
+	find func(c *fctx, fd *ast.FuncDecl) (int, ast.Expr, bool)
+}
+type cutRole struct {
+	doc  string
+	find func(c *fctx, fd *ast.FuncDecl) (string, bool)
+}
+
+func (a anchor) isSet() bool { return a.find != nil }
+
+// calls of pkgdir.fn (pkgdir "" = a function of the same package; "\x00strconv" = the standard library's strconv) in source order
+func (c *fctx) callsOf(fd *ast.FuncDecl, pkgdir, fn string) []*ast.CallExpr {
+	var out []*ast.CallExpr
+	ast.Inspect(fd.Body, func(n ast.Node) bool {
+		call, ok := n.(*ast.CallExpr)
+		if !ok {
+			return true
+		}
+		switch f := call.Fun.(type) {
+		case *ast.Ident:
+			if pkgdir == "" && f.Name == fn {
+				out = append(out, call)
+			}
+		case *ast.SelectorExpr:
+			if id, ok := f.X.(*ast.Ident); ok && pkgdir != "" && f.Sel.Name == fn && c.imp[id.Name] == pkgdir {
+				out = append(out, call)
+			}
+		}
+		return true
+	})
+	return out
+}
+
+func topIndex(fd *ast.FuncDecl, n ast.Node) int {
+	for i, s := range fd.Body.List {
+		if s.Pos() <= n.Pos() && n.End() <= s.End() {
+			return i
+		}
+	}
+	return -1
+}
+
+// argument `arg` of the nth (1-based; negative: from the end) call of pkgdir.fn, when the function has exactly `total` such calls (0: any number);
+// `strip` removes a conversion int64(..) around the argument
+func callArg(what, pkgdir, fn string, nth, total, arg int, strip bool) anchor {
+	return anchor{doc: what, find: func(c *fctx, fd *ast.FuncDecl) (int, ast.Expr, bool) {
+		calls := c.callsOf(fd, pkgdir, fn)
+		if len(calls) == 0 || (total != 0 && len(calls) != total) {
+			return 0, nil, false
+		}
+		i := nth - 1
+		if nth < 0 {
+			i = len(calls) + nth
+		}
+		if i < 0 || i >= len(calls) || arg >= len(calls[i].Args) || calls[i].Ellipsis.IsValid() {
+			return 0, nil, false
+		}
+		e := unparen(calls[i].Args[arg])
+		if strip {
+			if cv, ok := e.(*ast.CallExpr); ok && len(cv.Args) == 1 && isConv(nil, cv.Fun, "int64") {
+				e = unparen(cv.Args[0])
+			}
+		}
+		idx := topIndex(fd, calls[i])
+		if idx < 0 {
+			return 0, nil, false
+		}
+		return idx, e, true
+	}}
+}
+
+// the variable the body of the first top-level `if` assigns (a single assignment `x = e` as the first statement of the body); its value at the end
+var firstConditionalAssignment = anchor{doc: "the variable assigned in the first top-level if", find: func(c *fctx, fd *ast.FuncDecl) (int, ast.Expr, bool) {
+	for _, s := range fd.Body.List {
+		is, ok := s.(*ast.IfStmt)
+		if !ok {
+			continue
+		}
+		if len(is.Body.List) == 0 {
+			return 0, nil, false
+		}
+		as, ok := is.Body.List[0].(*ast.AssignStmt)
+		if !ok || as.Tok != token.ASSIGN || len(as.Lhs) != 1 {
+			return 0, nil, false
+		}
+		id, ok := as.Lhs[0].(*ast.Ident)
+		if !ok {
+			return 0, nil, false
+		}
+		return len(fd.Body.List), id, true
+	}
+	return 0, nil, false
+}}
+
+// the variable the function's first statement defines; its value at the end
+var firstDefinition = anchor{doc: "the variable the first statement defines", find: func(c *fctx, fd *ast.FuncDecl) (int, ast.Expr, bool) {
+	if len(fd.Body.List) == 0 {
+		return 0, nil, false
+	}
+	as, ok := fd.Body.List[0].(*ast.AssignStmt)
+	if !ok || as.Tok != token.DEFINE || len(as.Lhs) != 1 {
+		return 0, nil, false
+	}
+	id, ok := as.Lhs[0].(*ast.Ident)
+	if !ok {
+		return 0, nil, false
+	}
+	return len(fd.Body.List), id, true
+}}
+
+// M in the first top-level `if s > M || ..`
+var wrapBound = anchor{doc: "the right-hand operand of the first wrap test `s > M || s < 0`", find: func(c *fctx, fd *ast.FuncDecl) (int, ast.Expr, bool) {
+	for i, s := range fd.Body.List {
+		is, ok := s.(*ast.IfStmt)
+		if !ok || is.Init != nil {
+			continue
+		}
+		or, ok := unparen(is.Cond).(*ast.BinaryExpr)
+		if !ok || or.Op != token.LOR {
+			continue
+		}
+		cmp, ok := unparen(or.X).(*ast.BinaryExpr)
+		if !ok {
+			return 0, nil, false
+		}
+		switch cmp.Op {
+		case token.GTR:
+			return i, unparen(cmp.Y), true
+		case token.LSS:
+			return i, unparen(cmp.X), true
+		}
+		return 0, nil, false
+	}
+	return 0, nil, false
+}}
+
+// the variable that receives the result of a call selected by `is` (x = f(..), x := f(..)); exactly one such assignment
+func assignedFromCall(what string, is func(c *fctx, call *ast.CallExpr) bool) cutRole {
+	return cutRole{doc: what, find: func(c *fctx, fd *ast.FuncDecl) (string, bool) {
+		name, n := "", 0
+		ast.Inspect(fd.Body, func(nd ast.Node) bool {
+			as, ok := nd.(*ast.AssignStmt)
+			if !ok || len(as.Lhs) != 1 || len(as.Rhs) != 1 {
+				return true
+			}
+			call, ok := unparen(as.Rhs[0]).(*ast.CallExpr)
+			if !ok || !is(c, call) {
+				return true
+			}
+			if id, ok := as.Lhs[0].(*ast.Ident); ok {
+				if name != id.Name {
+					n++
+				}
+				name = id.Name
+			}
+			return true
+		})
+		return name, n == 1
+	}}
+}
+
+var resultOfMathMod = assignedFromCall("the variable that receives math.Mod(..)", func(c *fctx, call *ast.CallExpr) bool { return isMath(c, nil, call.Fun, "Mod") })
+
+func resultOfMethod(m string) cutRole {
+	return assignedFromCall("the variable that receives the result of the method "+m, func(c *fctx, call *ast.CallExpr) bool {
+		sel, ok := call.Fun.(*ast.SelectorExpr)
+		if !ok || sel.Sel.Name != m || len(call.Args) != 0 {
+			return false
+		}
+		id, ok := sel.X.(*ast.Ident)
+		return ok && c.imp[id.Name] == ""
+	})
+}
+
+// the nth (1-based) top-level `x := l[..]` of exactly `total`
+func indexedElement(nth, total int) cutRole {
+	return cutRole{doc: fmt.Sprintf("the variable defined by the %d. of the %d top-level statements `x := list[..]`", nth, total), find: func(c *fctx, fd *ast.FuncDecl) (string, bool) {
+		var names []string
+		for _, s := range fd.Body.List {
+			as, ok := s.(*ast.AssignStmt)
+			if !ok || as.Tok != token.DEFINE || len(as.Lhs) != 1 || len(as.Rhs) != 1 {
+				continue
+			}
+			if _, ok := unparen(as.Rhs[0]).(*ast.IndexExpr); !ok {
+				continue
+			}
+			if id, ok := as.Lhs[0].(*ast.Ident); ok {
+				names = append(names, id.Name)
+			}
+		}
+		if len(names) != total {
+			return "", false
+		}
+		return names[nth-1], true
+	}}
+}
+
+const objectPkg = "common/object"
+const strconvPkg = "\x00strconv"
 
 var ftargets = []ftarget{
 	{pkg: "common", name: "DegreeToRadian"},
 	{pkg: "common", name: "RadianToDegree"},
-	{pkg: "shape", name: "getHorizontalTileIdOnPoint", local: "lonIndex"},
-	{pkg: "shape", name: "getHorizontalTileIdOnPoint", local: "latIndex"},
-	{pkg: "shape", name: "getVerticalTileIdOnAltitude", local: "vIndex"},
+	// the operands X of the three strconv.FormatInt(.., 10) that build "z/x/y": the 2nd and 3rd are int64(X)
+	{pkg: "shape", name: "getHorizontalTileIdOnPoint", local: "lonIndex", role: callArg("X in the 2nd of the 3 calls strconv.FormatInt(int64(X), 10)", strconvPkg, "FormatInt", 2, 3, 0, true)},
+	{pkg: "shape", name: "getHorizontalTileIdOnPoint", local: "latIndex", role: callArg("X in the 3rd of the 3 calls strconv.FormatInt(int64(X), 10)", strconvPkg, "FormatInt", 3, 3, 0, true)},
+	{pkg: "shape", name: "getVerticalTileIdOnAltitude", local: "vIndex", role: callArg("X in the 2nd of the 2 calls strconv.FormatInt(int64(X), 10)", strconvPkg, "FormatInt", 2, 2, 0, true)},
 	{pkg: "shape", name: "getAltitudeOnVerticalIndexAndZoom"},
-	{pkg: "shape", name: "getVertexOnVoxelOffset", local: "latIndexFloat"},
-	{pkg: "shape", name: "getVertexOnVoxelOffset", local: "northLat"},
-	{pkg: "shape", name: "getVertexOnVoxelOffset", local: "southLat"},
-	{pkg: "shape", name: "getVertexOnVoxelOffset", local: "westLon", inputs: []cut{{"lonIndexFloat", "float64"}}},
-	{pkg: "shape", name: "getVertexOnVoxelOffset", local: "eastLon", inputs: []cut{{"lonIndexFloat", "float64"}}},
-	{pkg: "shape", name: "getVertexOnVoxelOffset", local: "vTopAlt"},
-	{pkg: "shape", name: "getCenterPointOnVoxelOffset", local: "centerLon", inputs: []cut{{"lonMax", "float64"}, {"lonMin", "float64"}}},
-	{pkg: "shape", name: "getCenterPointOnVoxelOffset", local: "centerLat", inputs: []cut{{"latMax", "float64"}, {"latMin", "float64"}}},
-	{pkg: "shape", name: "getCenterPointOnVoxelOffset", local: "centerAlt", inputs: []cut{{"altMax", "float64"}, {"altMin", "float64"}}},
+	// the eight corners object.NewPoint(lon, lat, alt): NW NE SE SW at the bottom, then at the top
+	{pkg: "shape", name: "getVertexOnVoxelOffset", local: "latIndexFloat", role: firstConditionalAssignment, weak: true},
+	{pkg: "shape", name: "getVertexOnVoxelOffset", local: "northLat", role: callArg("the latitude argument of the 1st of the 8 calls object.NewPoint", objectPkg, "NewPoint", 1, 8, 1, false)},
+	{pkg: "shape", name: "getVertexOnVoxelOffset", local: "southLat", role: callArg("the latitude argument of the 3rd of the 8 calls object.NewPoint", objectPkg, "NewPoint", 3, 8, 1, false)},
+	{pkg: "shape", name: "getVertexOnVoxelOffset", local: "westLon", role: callArg("the longitude argument of the 1st of the 8 calls object.NewPoint", objectPkg, "NewPoint", 1, 8, 0, false),
+		inputs: []cut{{"lonIndexFloat", "float64", resultOfMathMod}}},
+	{pkg: "shape", name: "getVertexOnVoxelOffset", local: "eastLon", role: callArg("the longitude argument of the 2nd of the 8 calls object.NewPoint", objectPkg, "NewPoint", 2, 8, 0, false),
+		inputs: []cut{{"lonIndexFloat", "float64", resultOfMathMod}}},
+	{pkg: "shape", name: "getVertexOnVoxelOffset", local: "vTopAlt", role: callArg("the altitude argument of the 5th of the 8 calls object.NewPoint", objectPkg, "NewPoint", 5, 8, 2, false)},
+	// the centre: the three arguments of the last object.NewPoint; inputs: x := list[0] (min) and x := list[len-1] (max), lon, lat, alt in this order
+	{pkg: "shape", name: "getCenterPointOnVoxelOffset", local: "centerLon", role: callArg("the longitude argument of the last call object.NewPoint", objectPkg, "NewPoint", -1, 0, 0, false),
+		inputs: []cut{{"lonMax", "float64", indexedElement(2, 6)}, {"lonMin", "float64", indexedElement(1, 6)}}},
+	{pkg: "shape", name: "getCenterPointOnVoxelOffset", local: "centerLat", role: callArg("the latitude argument of the last call object.NewPoint", objectPkg, "NewPoint", -1, 0, 1, false),
+		inputs: []cut{{"latMax", "float64", indexedElement(4, 6)}, {"latMin", "float64", indexedElement(3, 6)}}},
+	{pkg: "shape", name: "getCenterPointOnVoxelOffset", local: "centerAlt", role: callArg("the altitude argument of the last call object.NewPoint", objectPkg, "NewPoint", -1, 0, 2, false),
+		inputs: []cut{{"altMax", "float64", indexedElement(6, 6)}, {"altMin", "float64", indexedElement(5, 6)}}},
 	{pkg: "common/object", recv: "Point", name: "SetLon"},
 	{pkg: "common/object", recv: "Point", name: "SetLat"},
-	{pkg: "transform", name: "convertVerticallIDToBit", local: "spatialIDMaxHeight"},
-	{pkg: "transform", name: "convertVerticallIDToBit", local: "spatialIDMinHeight"},
-	{pkg: "transform", name: "convertBitToVerticalID", local: "voxelHeight"},
-	{pkg: "transform", name: "convertBitToVerticalID", local: "maxAltitude"},
-	{pkg: "transform", name: "convertBitToVerticalID", local: "minAltitude"},
+	{pkg: "transform", name: "convertVerticallIDToBit", local: "spatialIDMaxHeight", role: callArg("the altitude argument of the 1st of the 2 calls calcBitIndex", "", "calcBitIndex", 1, 2, 0, false)},
+	{pkg: "transform", name: "convertVerticallIDToBit", local: "spatialIDMinHeight", role: callArg("the altitude argument of the 2nd of the 2 calls calcBitIndex", "", "calcBitIndex", 2, 2, 0, false)},
+	{pkg: "transform", name: "convertBitToVerticalID", local: "voxelHeight", role: firstDefinition, weak: true},
+	{pkg: "transform", name: "convertBitToVerticalID", local: "maxAltitude", role: callArg("the altitude argument of the 1st of the 2 calls object.NewPoint", objectPkg, "NewPoint", 1, 2, 2, false)},
+	{pkg: "transform", name: "convertBitToVerticalID", local: "minAltitude", role: callArg("the altitude argument of the 2nd of the 2 calls object.NewPoint", objectPkg, "NewPoint", 2, 2, 2, false)},
 	{pkg: "transform", name: "calcBitIndex", loopBody: true, out: "calcBitIndex_step"},
-	{pkg: "operated", name: "GetShiftingSpatialID", local: "maxIndex", inputs: []cut{{"hZoom", "int64"}}},
+	{pkg: "operated", name: "GetShiftingSpatialID", local: "maxIndex", role: wrapBound, inputs: []cut{{"hZoom", "int64", resultOfMethod("HZoom")}}},
 }
 
 const libmVar = "M"
@@ -1157,16 +1377,28 @@ func writesOf(c *fctx, s ast.Stmt) map[string]bool {
 	return m
 }
 
-// the top-level statements the value of `local` at the end of the body depends on
-func (c *fctx) slice(body []ast.Stmt, local string, cuts map[string]bool, at ast.Node) []ast.Stmt {
-	needed := map[string]bool{local: true}
+// the statements among body[:upto] the value of e just before body[upto] depends on (upto = len(body): at the end of the function)
+func (c *fctx) slice(body []ast.Stmt, upto int, e ast.Expr, cuts map[string]bool, what string, at ast.Node) []ast.Stmt {
+	needed := map[string]bool{}
+	for id := range identsOf(e) {
+		if !cuts[id] {
+			needed[id] = true
+		}
+	}
 	include := make([]bool, len(body))
 	writes := make([]map[string]bool, len(body))
 	for i, s := range body {
 		writes[i] = writesOf(c, s)
 	}
-	any := false
-	for i := len(body) - 1; i >= 0; i-- {
+	if upto < len(body) {
+		// the statement that uses the value must not write it before it reads it
+		for id := range identsOf(e) {
+			if writes[upto][id] {
+				c.fail(body[upto], "the statement that uses %s may write %s", what, id)
+			}
+		}
+	}
+	for i := upto - 1; i >= 0; i-- {
 		hit := false
 		for w := range writes[i] {
 			if needed[w] {
@@ -1177,31 +1409,34 @@ func (c *fctx) slice(body []ast.Stmt, local string, cuts map[string]bool, at ast
 			continue
 		}
 		include[i] = true
-		any = true
 		for id := range identsOf(body[i]) {
 			if !cuts[id] {
 				needed[id] = true
 			}
 		}
 	}
-	if !any {
-		c.fail(at, "no top-level statement assigns the local variable %s", local)
-	}
-	// an input stands for its value at the end of the function: nothing may write it once the slice has started to read it
+	// an input stands for one value: nothing may write it between the first statement of the slice that reads it and the use of the result
 	for cv := range cuts {
 		first := -1
-		for i, s := range body {
-			if include[i] && identsOf(s)[cv] {
+		for i := 0; i < upto; i++ {
+			if include[i] && identsOf(body[i])[cv] {
 				first = i
 				break
 			}
 		}
 		if first < 0 {
-			c.fail(at, "the input %s is not read by the statements %s depends on", cv, local)
+			if identsOf(e)[cv] {
+				continue
+			}
+			c.fail(at, "the input %s is not read by the statements %s depends on", cv, what)
 		}
-		for i := first; i < len(body); i++ {
+		last := upto
+		if last >= len(body) {
+			last = len(body) - 1
+		}
+		for i := first; i <= last; i++ {
 			if writes[i][cv] {
-				c.fail(body[i], "the input %s of the slice for %s is written after it has been read (%s)", cv, local, relpos(body[first].Pos()))
+				c.fail(body[i], "the input %s of the slice for %s is written after it has been read (%s)", cv, what, relpos(body[first].Pos()))
 			}
 		}
 	}
@@ -1273,19 +1508,10 @@ func (t *translator) ffunction(tg ftarget, from ast.Node) *sig {
 	c := &fctx{t: t, pkg: p, imp: t.imports(p.files[p.fileOf[fd]]), label: label, declPos: map[token.Pos]string{}, nameCnt: map[string]int{},
 		body: fd.Body, fmode: true, partial: partial}
 	if tg.local != "" {
-		c.label = label + " (local " + tg.local + ")"
+		c.label = label + " (value " + tg.local + ")"
 	}
 	c.top = newScope(nil)
-	s := &sig{coq: tg.out}
-	if s.coq == "" {
-		s.coq = tg.name
-		if tg.recv != "" {
-			s.coq = tg.recv + "_" + tg.name
-		}
-		if tg.local != "" {
-			s.coq += "_" + tg.local
-		}
-	}
+	s := &sig{coq: tg.coqName()}
 	var binders, bnames []string
 	bind := func(name string, ty typ) {
 		binders = append(binders, "("+name+" : "+ty.coq()+")")
@@ -1386,8 +1612,15 @@ func (t *translator) ffunction(tg ftarget, from ast.Node) *sig {
 	switch {
 	case tg.local != "":
 		cuts := map[string]bool{}
+		var cutNotes []string
 		for _, in := range tg.inputs {
-			cuts[in.name] = true
+			name := in.name
+			if in.role.find != nil {
+				if n, ok := in.role.find(c, fd); ok {
+					name = n
+				}
+			}
+			cuts[name] = true
 			var ty typ
 			switch in.typ {
 			case "float64":
@@ -1397,15 +1630,16 @@ func (t *translator) ffunction(tg ftarget, from ast.Node) *sig {
 			case "bool":
 				ty = typ{k: kBool}
 			default:
-				failf("function %s: input %s of type %s", label, in.name, in.typ)
+				failf("function %s: input %s of type %s", label, name, in.typ)
 			}
-			if c.top.vars[in.name] != nil {
-				failf("%s: function %s: the input %s is a parameter", relpos(fd.Pos()), label, in.name)
+			if c.top.vars[name] != nil {
+				failf("%s: function %s: the input %s is a parameter", relpos(fd.Pos()), label, name)
 			}
-			c.nameCnt[in.name] = 1
-			v := &varInfo{coq: "v_" + in.name, t: ty}
-			c.top.vars[in.name] = v
+			c.nameCnt[name] = 1
+			v := &varInfo{coq: "v_" + name, t: ty}
+			c.top.vars[name] = v
 			bind(v.coq, ty)
+			cutNotes = append(cutNotes, name)
 		}
 		// results are not variables of a slice unless they are named
 		if fd.Type.Results != nil {
@@ -1418,29 +1652,69 @@ func (t *translator) ffunction(tg ftarget, from ast.Node) *sig {
 				}
 			}
 		}
-		stmts := c.slice(fd.Body.List, tg.local, cuts, fd)
-		// the statements that declared an input are not part of the slice: a `:=` of the slice must not redeclare it
+		// where the value is: by its role in the function, else by the name of the local variable (the other way round for a weak role)
+		stmtsAll := fd.Body.List
+		byName := func() (int, ast.Expr, string, bool) {
+			for _, st := range stmtsAll {
+				if writesOf(c, st)[tg.local] {
+					return len(stmtsAll), &ast.Ident{NamePos: fd.Body.Pos(), Name: tg.local}, "the local variable " + tg.local + " when control reaches the end of the function", true
+				}
+			}
+			return 0, nil, "", false
+		}
+		byRole := func() (int, ast.Expr, string, bool) {
+			if !tg.role.isSet() {
+				return 0, nil, "", false
+			}
+			i, e, ok := tg.role.find(c, fd)
+			if !ok {
+				return 0, nil, "", false
+			}
+			when := " just before that statement"
+			if i >= len(stmtsAll) {
+				when = " when control reaches the end of the function"
+			}
+			return i, e, tg.role.doc + " (`" + exprString(e) + "`)" + when, true
+		}
+		order := []func() (int, ast.Expr, string, bool){byRole, byName}
+		if tg.weak {
+			order = []func() (int, ast.Expr, string, bool){byName, byRole}
+		}
+		var upto int
+		var target ast.Expr
+		var what string
+		found := false
+		for _, f := range order {
+			if upto, target, what, found = f(); found {
+				break
+			}
+		}
+		if !found {
+			if tg.role.isSet() {
+				failf("%s: function %s: unsupported construct: found neither %s nor a top-level statement that assigns a local variable %s", relpos(fd.Pos()), c.label, tg.role.doc, tg.local)
+			}
+			failf("%s: function %s: unsupported construct: no top-level statement assigns the local variable %s", relpos(fd.Pos()), c.label, tg.local)
+		}
+		stmts := c.slice(stmtsAll, upto, target, cuts, what, fd)
 		var rt typ
 		body = c.block(stmts, c.top, func() string {
-			v := c.top.lookup(tg.local)
-			if v == nil {
-				failf("%s: function %s: unsupported construct: %s is not a variable of the function's outermost block", relpos(fd.Pos()), label, tg.local)
+			if id, ok := target.(*ast.Ident); ok && c.top.lookup(id.Name) == nil {
+				failf("%s: function %s: unsupported construct: %s is not a variable of the function's outermost block", relpos(fd.Pos()), c.label, id.Name)
 			}
-			if v.t.k == kOpaque || v.t.k == kStruct {
-				failf("%s: function %s: unsupported construct: the local variable %s has type %s", relpos(fd.Pos()), label, tg.local, v.t)
+			code, t := c.expr(c.top, target)
+			switch t.k {
+			case kF, kZ, kBool, kOptZ:
+			default:
+				failf("%s: function %s: unsupported construct: the extracted value %s has type %s", relpos(fd.Pos()), c.label, exprString(target), t)
 			}
-			rt = v.t
-			return v.coq
+			rt = t
+			return code
 		})
 		s.results = []typ{rt}
 		retType = rt.coq()
-		kindNote = " — the value of the local variable " + tg.local + " when control reaches the end of the function"
-		if len(tg.inputs) > 0 {
-			var ns []string
-			for _, in := range tg.inputs {
-				ns = append(ns, in.name)
-			}
-			kindNote += ", as a function of the parameters and of the final value of " + strings.Join(ns, ", ")
+		kindNote = " — the value of " + what
+		if len(cutNotes) > 0 {
+			kindNote += ", as a function of the parameters and of the value of " + strings.Join(cutNotes, ", ")
 		}
 	case tg.loopBody:
 		var loop *ast.ForStmt
@@ -1568,9 +1842,24 @@ func (t *translator) ffunction(tg ftarget, from ast.Node) *sig {
 	return s
 }
 
+func (tg ftarget) coqName() string {
+	if tg.out != "" {
+		return tg.out
+	}
+	n := tg.name
+	if tg.recv != "" {
+		n = tg.recv + "_" + tg.name
+	}
+	if tg.local != "" {
+		n += "_" + tg.local
+	}
+	return n
+}
+
 func (t *translator) runFloat(abs string) string {
 	for _, tg := range ftargets {
-		t.ffunction(tg, nil)
+		tg := tg
+		t.try(floatFile, tg.coqName(), func() { t.ffunction(tg, nil) })
 	}
 	var files []string
 	for f := range t.fused {
@@ -1606,6 +1895,7 @@ func (t *translator) runFloat(abs string) string {
 		fmt.Fprintf(&b, "  %s : float -> float -> float%s\n", libmField(n), sep)
 	}
 	b.WriteString("}.\n\n")
+	b.WriteString(t.rejectedNote(floatFile))
 	b.WriteString("(* ---- definitions (callees first) ---- *)\n")
 	for _, f := range t.ffuncs {
 		b.WriteString(f)
